@@ -50,6 +50,8 @@ type itemSnap struct {
 	Lines       []astisub.Line
 	Region      *astisub.Region
 	Style       *astisub.Style
+	// RunInline: the values the runs' inline attributes point at (an edit in place leaves the pointers alone)
+	RunInline []astisub.StyleAttributes
 }
 
 func snapItem(it *astisub.Item) itemSnap {
@@ -65,6 +67,11 @@ func snapItem(it *astisub.Item) itemSnap {
 	}
 	for _, l := range it.Lines {
 		s.Lines = append(s.Lines, astisub.Line{VoiceName: l.VoiceName, Items: append([]astisub.LineItem(nil), l.Items...)})
+		for _, li := range l.Items {
+			if li.InlineStyle != nil {
+				s.RunInline = append(s.RunInline, *li.InlineStyle)
+			}
+		}
 	}
 	return s
 }
@@ -97,6 +104,9 @@ func snapDiff(n, s itemSnap) string {
 	if !reflect.DeepEqual(n.Lines, s.Lines) && !(len(n.Lines) == 0 && len(s.Lines) == 0) {
 		return fmt.Sprintf("lines changed: %v -> %v", s.Lines, n.Lines)
 	}
+	if !reflect.DeepEqual(n.RunInline, s.RunInline) && !(len(n.RunInline) == 0 && len(s.RunInline) == 0) {
+		return fmt.Sprintf("inline attributes of a run edited in place: %+v -> %+v", s.RunInline, n.RunInline)
+	}
 	return ""
 }
 
@@ -111,7 +121,13 @@ func buildList(specs []cueSpec) *builtList {
 	b.sub.Regions["rg"] = b.reg
 	// the list's metadata is none of the operations' business: absent, or carrying a frame rate and a programme start
 	if len(specs) > 0 {
-		switch (len(specs) + int(specs[0].S/nsMs)) % 4 {
+		timer, resX := 50.0, 384
+		switch (len(specs) + int(specs[0].S/nsMs)) % 6 {
+		case 4:
+			// what the SSA reader leaves: a script timer is a field of the script, not a scale for the operations
+			b.sub.Metadata = &astisub.Metadata{SSATimer: &timer, SSAPlayResX: &resX, SSAScriptType: "v4.00"}
+		case 5:
+			b.sub.Metadata = &astisub.Metadata{Framerate: 50, Language: astisub.LanguageFrench, TTMLCopyright: "c"}
 		case 1:
 			b.sub.Metadata = &astisub.Metadata{Framerate: 25, Title: "t"}
 		case 2:
@@ -144,6 +160,10 @@ func buildList(specs []cueSpec) *builtList {
 		if i%2 == 0 {
 			it.Style = b.style
 			it.InlineStyle = &astisub.StyleAttributes{WebVTTAlign: "left"}
+		}
+		if i%5 == 1 && len(it.Lines) > 0 && len(it.Lines[0].Items) > 0 {
+			// what the SSA reader leaves on a run: an override block (karaoke timing, here) is content like any other
+			it.Lines[0].Items[0].InlineStyle = &astisub.StyleAttributes{SSAEffect: "{\\k50\\kf120}", SRTItalics: true}
 		}
 		if i%3 == 0 {
 			it.Region = b.reg
